@@ -54,7 +54,17 @@ func Errors() check.Family {
 	return check.Family{Name: "l2-errors", Cases: spec.L2Errors(), PerService: 4}
 }
 
+// Security is the security requirement family.
+func Security(thorough bool) check.Family {
+	return check.Family{Name: "l2-security-" + tierName(thorough), Cases: spec.L2Security(thorough), PerService: 1, PerDesign: 4}
+}
+
+// Views is the result-type view family (one result type per design).
+func Views(thorough bool) check.Family {
+	return check.Family{Name: "l2-views", Cases: spec.L2Views(thorough), PerService: 1, PerDesign: 1}
+}
+
 // All lists every family (C01, C07, C09 run over all of them).
 func All(thorough bool) []check.Family {
-	return []check.Family{PayloadSingle(), PayloadPair(thorough), ResultSingle(), ResultPair(thorough), ResultStatus(), PayloadValidation(thorough), ResultValidation(thorough), Errors()}
+	return []check.Family{PayloadSingle(), PayloadPair(thorough), ResultSingle(), ResultPair(thorough), ResultStatus(), PayloadValidation(thorough), ResultValidation(thorough), Errors(), Security(thorough), Views(thorough)}
 }
